@@ -1190,7 +1190,9 @@ class RouterSessionManager(SessionManager):
             if use_route_table:
                 route = self.node.route_table.find_best_route(dst_ip_address)
                 if not route:
-                    raise Exception("cannot use route to resolve outbound details")
+                    # no ARP entry and no route: leave the details unresolved so that the caller drops the payload
+                    self.sys_log.warning(f"Cannot resolve outbound details for {dst_ip_address}: no route")
+                    return None, None, dst_ip_address, src_port, dst_port, protocol, is_broadcast
 
                 dst_mac_address = self.software_manager.arp.get_arp_cache_mac_address(route.next_hop_ip_address)
                 outbound_network_interface = self.software_manager.arp.get_arp_cache_network_interface(
